@@ -27,7 +27,11 @@ IncTags(r) ==
     Tags(r)
     \cup (IF r.thrown THEN {} ELSE
           (IF ~r.noopSame THEN {"noop-transaction-changed-a-route"} ELSE {})
+          \* (compared only with a fresh route that is itself valid for the scene: the fresh router is not an oracle)
           \cup (IF r.exact /\ Len(r.iraw) >= 2 /\ Len(r.fraw) >= 2 /\ CostLo(Dedup(r.iraw), r.P) > CostHi(Dedup(r.fraw), r.P)
+                   /\ LET fr == Dedup([i \in DOMAIN r.fraw |-> <<r.fraw[i][1] * 1024, r.fraw[i][2] * 1024>>])
+                          obstacles == {i \in DOMAIN r.polys : ~InClosed(r.polys[i], r.src) /\ ~InClosed(r.polys[i], r.dst)}
+                      IN  \A sg \in 1..(Len(fr) - 1), i \in obstacles : ~Blocks(r.polys[i], fr[sg], fr[sg + 1])
                 THEN {"costlier-than-fresh-router"} ELSE {}))
 IVARS == <<k, phase, bad>>
 IEval == /\ phase = "todo" /\ phase' = "done" /\ UNCHANGED k
